@@ -776,6 +776,24 @@ def handle (j : Json) : E Json := do
         let k ← op.getObjValAs? String "k"
         match k with
         | "tpl" =>
+          match jOpt op "docs" with
+          | some ds =>
+            -- several documents in one text: loaded one after the other, the first rejected one ends the call
+            let docs ← (← ds.getArr?).toList.mapM (fun d => do
+              (← d.getArr?).toList.mapM (fun e => do
+                let a ← (← e.getArrVal? 0).getStr?
+                let b ← (← e.getArrVal? 1).getStr?
+                pure (a.toList, b.toList)))
+            let rec loadDs : List (List (Str × Str)) → Compiler → Compiler × Json
+              | [], c => (c, Json.str "ok")
+              | d :: rest, c =>
+                if (d.map Prod.fst).eraseDups.length != d.length then (c, errJ .serde)
+                else match M.Compiler.loadTemplates c d with
+                  | .ok c' => loadDs rest c'
+                  | .error e => (c, errJ e)
+            let (c', o) := loadDs docs c
+            go rest c' (o :: acc)
+          | none =>
           let d ← (← (← op.getObjVal? "doc").getArr?).toList.mapM (fun e => do
             let a ← (← e.getArrVal? 0).getStr?
             let b ← (← e.getArrVal? 1).getStr?
